@@ -207,6 +207,9 @@ def cfg_list():
     # incl. a regime where the Euler step 1 + sigma sqrt(dt) z goes negative with non-negligible probability (the martingale property still holds)
     for kind, dt, T, s0 in [("const", 1 / 52, 27, 1.3), ("smile", 1 / 250, 31, 1.0), ("time", 1 / 12, 13, 0.6), ("big", 1 / 12, 7, 1.0)]:
         C.append(("localvol", dict(kind=kind, dt=dt, T=T, s0=s0)))
+    # jumps of a fixed size (jump_std = 0, jump_mean != 0) are still jumps: the log-mean and log-variance carry lam t m and lam t m^2
+    C.append(("merton", dict(lam=20.0, jm=-0.1, js=0.0, sigma=0.2, mu=0.05, dt=1 / 52, T=27, s0=1.5)))
+    C.append(("merton", dict(lam=8.0, jm=0.15, js=0.0, sigma=0.1, mu=0.0, dt=1 / 12, T=13, s0=1.0)))
     return C
 
 
